@@ -497,6 +497,12 @@ func run(c *core.Ctx) {
 			}
 		}
 	}, func(t tcase) string { return t.derivedSrc() }, func(t tcase, o panrun.Obs) { e.judge(t, o) })
+	// bounds with side effects are evaluated once each, in order (a cursor advanced inside the bounds)
+	tk.Batched(c, 50, "", func(emit func(tcase)) {
+		for i := 0; i < len(effectCases); i++ {
+			emit(tcase{Kind: "arr", N: 6, Mode: "effect", Pre: i})
+		}
+	}, func(t tcase) string { return effectCases[t.Pre][0] }, func(t tcase, o panrun.Obs) { e.judgeEffect(t, o) })
 	// one slice expression with a variable bound, evaluated several times with different values
 	tk.Batched(c, 300, "", func(emit func(tcase)) { genReeval(c.Pick(2, 3), emit) }, reevalSrc, func(t tcase, o panrun.Obs) { e.judgeReeval(t, o) })
 }
@@ -598,6 +604,39 @@ func (e *env) judgeReeval(t tcase, o panrun.Obs) {
 		Expected: want + " (each evaluation gives what that slice gives on its own)", Observed: o.Short(), Repro: "(" + strings.ReplaceAll(reevalSrc(t), "\n", "; ") + ").p\n"})
 }
 
+// ---------------------------------------------------------------- bounds with side effects
+
+var effectCases = [][2]string{
+	{"s := [10, 11, 12, 13, 14, 15]\ni := 0\n[s[(i := i + 1):], i]", "[[11, 12, 13, 14, 15], 1]"},
+	{"s := [10, 11, 12, 13, 14, 15]\ni := 0\n[s[(i := i + 1):(i := i + 2)], i]", "[[11, 12], 3]"},
+	{"s := [10, 11, 12, 13, 14, 15]\ni := 0\n[s[(i := i + 1):(i := i + 3):(i := i - 2)], i]", "[[11, 13], 2]"},
+	{"s := [10, 11, 12, 13, 14, 15]\nit := [1, 3, 9]._iter\n[s[it.next:it.next], it.next]", "[[11, 12], 9]"},
+	{"t := \"abcdef\"\ncur := 0\n[t[cur:(cur := cur + 1)], t[cur:(cur := cur + 2)], t[cur:(cur := cur + 3)]]", `["a", "bc", "def"]`},
+	{"s := [10, 11, 12]\nn := 0\nf := {|| n := n + 1; 1}\ng := {|k| s[k():]}\n[g(f), g(f)]", "[[11, 12], [11, 12]]"},
+	{"s := [10, 11, 12, 13]\ntr := []\nb := {|v| v.p; v}\ns[b(1):b(3):b(1)]", "[11, 12]"},
+}
+
+func (e *env) judgeEffect(t tcase, o panrun.Obs) {
+	c := e.c
+	c.Eval(1)
+	c.Validated(1)
+	c.Nontrivial(1)
+	src, want := effectCases[t.Pre][0], effectCases[t.Pre][1]
+	if o.Kind == "syntax" {
+		c.HarnessError("effect case does not parse: %s: %s", src, o.ErrMsg)
+		return
+	}
+	wantOut := ""
+	if t.Pre == len(effectCases)-1 {
+		wantOut = "1\n3\n1\n"
+	}
+	c.Outcome("effect:" + o.Kind)
+	if o.Kind == "value" && o.Repr == want && o.Out == wantOut {
+		return
+	}
+	c.Violation(core.Violation{Key: fmt.Sprintf("bound-evaluated-other-than-once/%d", t.Pre), Case: core.JSON(t), Desc: strings.ReplaceAll(src, "\n", "; "), Expected: fmt.Sprintf("%s out=%q", want, wantOut), Observed: fmt.Sprintf("%s out=%q", o.Short(), o.Out), Repro: "(" + strings.ReplaceAll(src, "\n", "; ") + ").p\n"})
+}
+
 // ---------------------------------------------------------------- history: the str is used by other operations first
 
 var preOps = []string{"s._incBy(1)", "(s:s._incBy(3)).A", "(s:s._incBy(2))@{|c| c}", "s.len", "s.ord", "s@{|c| c}", "s.A", "s + \"x\"", "s.uc", "s == s", "s.S", "s.repr", "s * 2", "s[0]", "s[::-1]", "%{s: 1}[s]", "s.lc", "s <=> s"}
@@ -655,6 +694,11 @@ func replay(c *core.Ctx, raw json.RawMessage) {
 	if t.Mode == "history" {
 		obs := c.R().Thunks("", []string{histSrc(t)}, "")
 		e.judgeHist(t, obs[0])
+		return
+	}
+	if t.Mode == "effect" {
+		obs := c.R().Thunks("", []string{effectCases[t.Pre][0]}, "")
+		e.judgeEffect(t, obs[0])
 		return
 	}
 	if t.Mode == "derived" {
